@@ -1,9 +1,11 @@
 //! Model-checking harness for llfree-rs (see /verif/DESIGN.md)
+pub mod c17;
 pub mod checks;
 pub mod common;
 pub mod crash;
 pub mod dom;
 pub mod extras;
+pub mod guard;
 pub mod hook;
 pub mod ilv;
 pub mod model;
